@@ -37,6 +37,8 @@ type stackEnv struct {
 	curOp       atomic.Int64 // number of the client-side call being executed
 	subPrefix   string       // set when the stack contains sub(...): names underneath carry this prefix
 	minChunk    int          // chunk size the registry underneath advertises (0: ocimem's 8 KiB)
+	serverURL   string       // URL of the outermost HTTP server of the stack (built last)
+	singlePost  bool
 }
 
 // smallChunks wraps a registry so that its upload writers report a small ChunkSize.
@@ -207,6 +209,8 @@ func (env *stackEnv) build(s string) (ociregistry.Interface, string, error) {
 			h.ServeHTTP(w, req)
 		}))
 		env.closers = append(env.closers, srv.Close)
+		env.serverURL = srv.URL // the outermost server is built last
+		env.singlePost = !so.DisableSinglePostUpload
 		u, _ := url.Parse(srv.URL)
 		c, err := ociclient.New(u.Host, &ociclient.Options{Insecure: true, ListPageSize: page,
 			Transport: &tagTransport{env: env, base: &http.Transport{DisableKeepAlives: false, MaxIdleConnsPerHost: 4}}})
